@@ -380,16 +380,32 @@ def rule_seed_out(ctx) -> None:
     seed_names = {r.value.id for r in walk_no_defs(mk.node) if isinstance(r, ast.Return) and isinstance(r.value, ast.Name)}
     stores = [n for n in cfg.nodes if n.kind == "stmt" and isinstance(n.ast, ast.Assign) and any(isinstance(t, ast.Subscript) and src(t.value) in seed_names for t in n.ast.targets)]
     ctx.floor("C12.SEED", "seed stores", len(stores), 1)
-    for s in stores:
-        facts = cfg.facts(s)
-        lowered = {d.name for d in ctx.rd(mk).all_defs if d.kind == "assign" and d.value is not None and isinstance(d.value, ast.Call) and call_tail(d.value) == "lower"
-                   and isinstance(d.value.func.value, ast.Name) and d.value.func.value.id in mk.params}
-        ok = any(pol and ".lower()" in a and any(a.endswith(f" in {t}") for t in lowered) for a, pol in facts)
-        ctx.check(ok, "C12.SEED", f"{mk.qual}/seed-only-if-occurs", mk.loc(s.ast), "a node is seeded only where its lower-cased label occurs in the lower-cased text",
-                  "a seed is stored without the `label.lower() in text` test: nodes whose label does not occur in the input are seeded")
-    tdef = [d for d in ctx.rd(mk).all_defs if d.kind == "assign" and d.value is not None and isinstance(d.value, ast.Call) and call_tail(d.value) == "lower"
-            and isinstance(d.value.func.value, ast.Name) and d.value.func.value.id in mk.params]
-    ctx.check(bool(tdef), "C12.SEED", f"{mk.qual}/text-lowered", mk.loc(), "the matched text is text.lower()", "the matched text is not the lower-cased input")
+    # the same case folding on both sides, and a context-free one: str.lower() is context sensitive (word-final capital sigma),
+    # so `label.lower() in text.lower()` misses a label that occurs verbatim inside a longer word; casefold() on one side and
+    # lower() on the other miss sharp s / ligatures.  Required: text.casefold() and label.casefold().
+    FOLDS = ("casefold",)
+    folded = {d.name: call_tail(d.value) for d in ctx.rd(mk).all_defs if d.kind == "assign" and d.value is not None and isinstance(d.value, ast.Call) and call_tail(d.value) in ("lower", "casefold", "upper")
+              and isinstance(d.value.func, ast.Attribute) and isinstance(d.value.func.value, ast.Name) and d.value.func.value.id in mk.params}
+    for st in stores:
+        facts = cfg.facts(st)
+        ok = False
+        why = "a seed is stored without the `label.casefold() in text` test: nodes whose label does not occur in the input are seeded"
+        for a, pol in facts:
+            if not pol or " in " not in a:
+                continue
+            left, _, right = a.rpartition(" in ")
+            if right in folded:
+                lf = next((f for f in ("casefold", "lower", "upper") if left.endswith(f".{f}()")), None)
+                if lf is None:
+                    continue
+                if lf == folded[right] and lf in FOLDS:
+                    ok = True
+                elif lf != folded[right]:
+                    why = f"the label is folded with .{lf}() but the text with .{folded[right]}(): the two foldings disagree on sharp s, final sigma, micro sign and ligatures, so a label that occurs verbatim is not seeded"
+                else:
+                    why = f"label and text are both folded with .{lf}(), which is context sensitive (a word-final capital sigma lowers differently): a label that occurs verbatim inside a longer word is not seeded"
+        ctx.check(ok, "C12.SEED", f"{mk.qual}/seed-only-if-occurs", mk.loc(st.ast), "a node is seeded only where its case-folded label occurs in the case-folded text (casefold on both sides)", why)
+    ctx.check(any(v in FOLDS for v in folded.values()), "C12.SEED", f"{mk.qual}/text-lowered", mk.loc(), "the matched text is text.casefold()", "the matched text is not the case-folded input")
     fn = ctx.func(INNER)
     # labels list built from node labels and string tags only
     lab_args = {src(c.args[1]) for c in walk_no_defs(fn.node) if isinstance(c, ast.Call) and call_tail(c) == "_match_keywords" and len(c.args) > 1}
